@@ -518,7 +518,7 @@ def rule_r10(ctx) -> RuleResult:
     may hand None to the column.  Followed backwards from add_page's parameter through same-named parameters of wrappers to
     the expressions at the outermost call sites; `d.get(key)` without a default is None for a missing key (seed C17-9A: the
     JSON override reader dropped the `False` default)."""
-    rr = RuleResult("C17.R10", "the need_pre_expand column never receives NULL", min_instances=2)
+    rr = RuleResult("C17.R10", "the need_pre_expand column never receives NULL", min_instances=1)
     funcs = {}
     for dotted, m, f in ctx.index.all_functions():
         funcs.setdefault(f.name, []).append((dotted, m, f))
